@@ -1,15 +1,21 @@
 """Evaluate `if constexpr` conditions with g++ itself (DESIGN §2.1): a tiny program against the REAL headers prints
 each condition for the unit's instantiation.  No hand-written trait evaluator."""
-import os, subprocess, hashlib, json
+import os, subprocess, hashlib, json, threading
 from .extract import REPO, ExtractError
 
 _cache = {}
+_lock = threading.Lock()   # units run in parallel threads and share conditions (same hash -> same files): one evaluation at a time
 
 
 def evaluator(header, using_lines, scratch):
+    if os.environ.get("VERIF_TEST_INTERNAL_ERROR"): raise PermissionError("simulated")
     """returns decide(cond) -> bool for lower.if_constexpr"""
     def decide(cond):
         key = (header, using_lines, cond)
+        with _lock:
+            return _decide_locked(key, header, using_lines, cond)
+
+    def _decide_locked(key, header, using_lines, cond):
         if key in _cache:
             return _cache[key]
         d = os.path.join(scratch, 'cxx_eval')
